@@ -163,6 +163,9 @@ def jobs(tier):
                               bounds="second m_ctx_register from callback kind %d of a %s module" % (cb, "deny-ctx" if deny else "normal"),
                               unwind=13)
             js.append(js_extra)
+    js.append(l2_job("C07.pollinitfail", "l2/c07_pollinitfail.c", symbolic=["errno left by callbacks (int)"],
+                     bounds="the allocation of the poll event buffer fails once at loop start (allocator hook)", unwind=13,
+                     fp_extra=[(r"memhook\._calloc$", ["vf_calloc"])]))
     for act in (1, 2):
         js.append(l2_job("C07.flushdereg.act%d" % act, "l2/c07_flushdereg.c", defines={"ACT": act},
                          symbolic=["quit code (uint8)", "errno left by callbacks (int)"],
@@ -184,7 +187,7 @@ MANIFEST = {
             "survives until deregistered; (guards) second registration EEXIST with any flag word on idle/looping context and "
             "from a handler and on two threads, finalize gate for any module flag word, the full menu of context and module "
             "calls with unconstrained arguments from a thread without context (also before the thread-specific key exists) "
-            "returning an error and leaving module, context, allocations, descriptors and callback log unchanged; the CTX_STOPPED handler of the loop-stop flush deregistering the last module or the context",
+            "returning an error and leaving module, context, allocations, descriptors and callback log unchanged; the CTX_STOPPED handler of the loop-stop flush deregistering the last module or the context; a loop that fails to start (event buffer allocation refused by the allocator hook) leaves the context idle",
     "note": "call order, module count/states and every context flag bit are per-job constants (a symbolic flag word makes "
             "PERSIST/NAME_DUP tests symbolic: no verdict); symbolic per job: errno left by callbacks, quit code, user data "
             "identity, refused flag words and all arguments of refused calls; bounds: <= 3 modules, <= 1 loop run, 2 "
